@@ -40,6 +40,7 @@ struct Conn {
 	std::deque<WriteDecision> wplan;
 	bool blocked = false;
 	int junk = -1;          // -1 none, else pattern id
+	size_t chunk_all = 0;   // > 0: upper bound for every read()
 	std::vector<WriteCall> writes;
 	uint64_t bytes_in = 0;
 	size_t out_at_close = 0;
